@@ -39,18 +39,8 @@ impl Env {
     pub fn crypto_keccak256(&self, data: &Bytes) -> (r: Hash<32>) ensures r@ == keccak256_spec(data@) { unimplemented!() }
 }
 
-/// XDR serialisation of a host value: an uninterpreted injective encoding (`ScVal` XDR is a
-/// prefix-free canonical encoding; only injectivity is stated)
-pub uninterp spec fn xdr_spec(v: SV) -> Seq<u8>;
+/// both digests are exactly 32 bytes long (a fact about SHA-256 / Keccak-256, assumed)
 #[verifier::external_body]
-pub proof fn lemma_xdr_inj(a: SV, b: SV)
-    ensures xdr_spec(a) == xdr_spec(b) ==> a == b,
-{}
-/// soroban_sdk::xdr::ToXdr (blanket: everything convertible to a host value)
-pub trait ToXdr: ToSV {
-    fn to_xdr(self, e: &Env) -> (r: Bytes) ensures r@ == xdr_spec(self.sv());
-}
-impl<T: ToSV> ToXdr for T {
-    #[verifier::external_body]
-    fn to_xdr(self, e: &Env) -> (r: Bytes) { unimplemented!() }
-}
+pub proof fn lemma_sha256_len(b: Seq<u8>) ensures sha256_spec(b).len() == 32 {}
+#[verifier::external_body]
+pub proof fn lemma_keccak256_len(b: Seq<u8>) ensures keccak256_spec(b).len() == 32 {}
